@@ -30,6 +30,7 @@ func (w *Workers) Call(count int, value func() (interface{}, error)) (interface{
 		result interface{}
 		error  error
 	}, 1)
+	verifAt("workers.call.lock", w, count)
 	w.mutex.Lock()
 	if w.cond == nil {
 		w.cond = sync.NewCond(&w.mutex)
@@ -53,6 +54,7 @@ func (w *Workers) Call(count int, value func() (interface{}, error)) (interface{
 		go w.worker()
 	}
 	w.mutex.Unlock()
+	verifAt("workers.call.recv", w, 0)
 	result := <-output
 	return result.result, result.error
 }
@@ -70,9 +72,11 @@ func (w *Workers) Wrap(count int, value func() (interface{}, error)) func() (int
 // Wait will unblock when all workers are complete
 func (w *Workers) Wait() {
 	w.ensure()
+	verifAt("workers.wait.lock", w, 0)
 	w.mutex.Lock()
 	defer w.mutex.Unlock()
 	for w.count != 0 {
+		verifAt("workers.wait.wait", w, 0)
 		w.cond.Wait()
 	}
 }
@@ -80,6 +84,7 @@ func (w *Workers) Wait() {
 // Count will return the number of workers currently running
 func (w *Workers) Count() int {
 	w.ensure()
+	verifAt("workers.count.lock", w, 0)
 	w.mutex.Lock()
 	defer w.mutex.Unlock()
 	return w.count
@@ -102,6 +107,7 @@ func (w *Workers) check(count int, value func() (interface{}, error)) {
 
 func (w *Workers) worker() {
 	for {
+		verifAt("workers.worker.lock", w, 0)
 		w.mutex.Lock()
 		if len(w.queue) == 0 || w.count > w.target {
 			w.count--
